@@ -756,3 +756,60 @@ func (g *gen) runGzipHeaders() {
 		}
 	}
 }
+
+// T. "untouched" is byte-identical also under the charset auto-decoder: auto-decode left ON (the
+// client's default), textual Content-Types in legacy charsets / sniffable ones, bodies with bytes >= 0x80
+// (GBK, Latin-1, Shift_JIS text, and random bytes), and every way a response keeps its Content-Encoding:
+// tokens the transport cannot decode (lz4, bzip2, xz, snappy, dcb, aws-chunked, x-custom, compress,
+// identity, lists, several lines), mixed-case tokens, and decodable codings left coded (caller's own
+// Accept-Encoding, Range, compression disabled; AutoDecompression off).  Decoded responses are not in this
+// phase: transcoding the decoded text is the charset property's business.
+func (g *gen) runCharsetUntouched() {
+	r, rng := g.r, g.rng.Fork()
+	bodies := []payload{
+		{"gbk", []byte("\xc4\xe3\xba\xc3\xa3\xac\xca\xc0\xbd\xe7 - GBK text \xd6\xd0\xce\xc4\n")},
+		{"latin1", []byte("caf\xe9 cr\xe8me br\xfbl\xe9e \xa9 na\xefve\n")},
+		{"sjis", []byte("\x82\xb1\x82\xf1\x82\xc9\x82\xbf\x82\xcd Shift_JIS\n")},
+		{"rand", rng.Bytes(700)},
+	}
+	cts := []string{"text/plain; charset=gbk", "text/html; charset=iso-8859-1", "text/plain; charset=shift_jis", "text/html", "application/json; charset=gb18030", "text/xml"}
+	unknown := []coding{
+		{"unknown", []string{"lz4"}, nil}, {"unknown", []string{"bzip2"}, nil}, {"unknown", []string{"xz"}, nil},
+		{"unknown", []string{"snappy"}, nil}, {"unknown", []string{"dcb"}, nil}, {"unknown", []string{"aws-chunked"}, nil},
+		codings[7], codings[8], codings[6], codings[9], codings[15], codings[20], codings[23],
+	}
+	n := 0
+	for bi, p := range bodies {
+		for ci, c := range unknown {
+			ct := cts[(bi+ci)%len(cts)]
+			s := g.newScript(p, c, n%2 == 0, ct)
+			for _, st := range stacks {
+				cf := cfg{Text: true, Auto: n%2 == 0, Disable: n%3 == 0}
+				g.one(exchange{Stack: st, Cfg: cf, Req: reqKinds[(n%2)*1], S: s, Pat: readPats[n%len(readPats)]})
+				r.Count("charset-untouched.kind=unsupported")
+				n++
+			}
+			g.drop(s)
+		}
+		// decodable codings the transport leaves coded, and mixed-case tokens
+		for ci, c := range []coding{codings[0], codings[1], codings[2], codings[3], codings[12], codings[13]} {
+			ct := cts[(bi+ci+1)%len(cts)]
+			s := g.newScript(p, c, n%2 == 1, ct)
+			for _, st := range stacks {
+				for _, k := range []reqKind{reqKinds[1], reqKinds[4]} { // caller Accept-Encoding; Range
+					cf := cfg{Text: true}
+					if c.class == "mixed" {
+						cf.Auto = true
+					}
+					if c.class == "mixed" && k.AE == "" {
+						continue
+					}
+					g.one(exchange{Stack: st, Cfg: cf, Req: k, S: s, Pat: readPats[n%len(readPats)]})
+					r.Count("charset-untouched.kind=left-coded")
+					n++
+				}
+			}
+			g.drop(s)
+		}
+	}
+}
